@@ -92,13 +92,14 @@ def check_ragged_readme(path, scratch, model_lens=None):
         if model_lens is not None:
             n = len(model_lens)
             flat = ' '.join(txt.split())
-            if not re.search(rf'(?<![\d.]){n}\s+subarray', flat):
+            head = flat.split('Example code')[0]
+            if not re.search(rf'(?<![\d.]){n}(?![\d.])', head):     # tolerant of rewording: the count occurs
                 return ('readme.ragged', 'count_not_stated', f'n={n}')
             want = [(k, model_lens[k]) for k in range(min(n, 5))]
             if n > 5:
                 want.append((n - 1, model_lens[n - 1]))
             for k, l in want:
-                if not re.search(rf'(?m)^\s*{k}\s*:\s*\(\s*{l}\s*,', txt):
+                if not re.search(rf'(?m)^\D*{k}\D+{l}(\D|$)', txt):   # a line listing k, then its length
                     return ('readme.ragged', 'subarray_dims_not_listed', f'k={k} len={l}')
     finally:
         shutil.rmtree(scratch, ignore_errors=True)
